@@ -27,7 +27,7 @@ def sh(cmd, **kw):
 
 def main():
     args = [a for a in sys.argv[1:] if not a.startswith('--')]
-    src, sid, checks = args[0], args[1], args[2:]
+    src, sid, checks = os.path.abspath(args[0]), args[1], args[2:]
     tier = 'quick'
     if '--tier' in sys.argv:
         tier = sys.argv[sys.argv.index('--tier') + 1]
@@ -75,7 +75,7 @@ def main():
         if out['confirmed']:
             for c in checks:
                 t0 = time.time()
-                r = sh(['/venv/bin/python', '-m', f'checks.{c}', '--tier', tier], cwd='/verif', env=dict(os.environ, VERIF_REPO=wt), timeout=7200)
+                r = sh(['/venv/bin/python', '-m', f'checks.{c}', '--tier', tier], cwd='/verif', env=dict(os.environ, VERIF_REPO=wt, VERIF_EVIDENCE_DIR=f'/var/tmp/seed-evidence-{sid}'), timeout=7200)
                 lines = [l for l in r.stdout.splitlines() if l.startswith(('VIOLATION', 'OK ', 'MACHINERY', 'KNOWN-FINDING', '  '))]
                 viol = [l for l in r.stdout.splitlines() if l.startswith('VIOLATION')]
                 detail = [l.strip()[:300] for l in r.stdout.splitlines() if l.startswith('  ')][:3]
@@ -105,6 +105,7 @@ def main():
     finally:
         sh(['git', '-C', '/repo', 'worktree', 'remove', '--force', wt])
         shutil.rmtree(wt, ignore_errors=True)
+        shutil.rmtree(f'/var/tmp/seed-evidence-{sid}', ignore_errors=True)
 
 
 if __name__ == '__main__':
